@@ -347,14 +347,20 @@ func runC15(c *core.Ctx) {
 	}
 	// ---- B2: number alphabet at every constant site (Float64 positions): integers, fractions, integral floats, and the
 	// magnitudes at which a shortest-form printer switches to exponent notation (>= 1e21, < 1e-4), the extremes of float64
-	nums := []interface{}{0, 1, -1, 2147483647, -2147483648, 0.5, -1.25, 2.0, 0.1, 123456789.125, 1e15, 1e16, 1e20, 1e21, -1e21, 1.5e21, 1e-4, 1e-5, 1e-7, 1.5e-7, -1e-7, 1e100, 1.7976931348623157e308, 5e-324}
+	nums := []interface{}{nil, 0, 1, -1, 2147483647, -2147483648, 0.5, -1.25, 2.0, 0.1, 123456789.125, 1e15, 1e16, 1e20, 1e21, -1e21, 1.5e21, 1e-4, 1e-5, 1e-7, 1.5e-7, -1e-7, 1e100, 1.7976931348623157e308, 5e-324}
 	for _, site := range c15NumSites {
 		for _, x := range nums {
 			if !c.Owns(fmt.Sprintf("B2|%s|%v", site, x)) {
 				continue
 			}
+			if x == nil && strings.HasSuffix(site, "-default") && site != "list-default" && site != "object-default" {
+				continue // ggql does not tell "= null" from "no default" (both read back as no default): not demanded
+			}
 			c.Nontrivial()
 			cls := "integer"
+			if x == nil {
+				cls = "explicit-null" // a value like any other: it must be printed, it switches a default off
+			}
 			if f, ok := x.(float64); ok {
 				cls = "fraction"
 				if f == float64(int64(f)) && f < 1e15 && f > -1e15 {
@@ -373,7 +379,7 @@ func runC15(c *core.Ctx) {
 	if c.Shard == 0 {
 		c15Ggqlgen(c, bases)
 	}
-	c.R.Bound = fmt.Sprintf("A: %d schemas; B: %d sites x %d strings (<= %d units over %d); B2: 7 constant sites x 24 numbers; whole-root and per-type (reversed) printed forms; C: ggqlgen on the bases (thorough)", len(subjects), len(c15Sites()), len(strs), maxLen, len(c15Units))
+	c.R.Bound = fmt.Sprintf("A: %d schemas; B: %d sites x %d strings (<= %d units over %d); B2: 7 constant sites x (24 numbers + explicit null); whole-root and per-type (reversed) printed forms; C: ggqlgen on the bases (thorough)", len(subjects), len(c15Sites()), len(strs), maxLen, len(c15Units))
 	if !completed {
 		c.Cap("deadline reached")
 	}
